@@ -64,7 +64,7 @@ fn vector_case(i: usize, v: Value) -> Box<dyn Case> {
         let bytes = unhex(v["proof"].as_str().unwrap());
         let masks_expect: Option<Vec<Scalar>> = v["masks"].as_array().map(|a| a.iter().map(|s| scalar_of(s.as_str().unwrap())).collect());
         // reference model against the recorded release output (this is what arbitrates R)
-        let rst = ref_statement(&built.statement);
+        let rst = ref_statement_indep(&built.statement);
         match refbp::ref_decode_allow_zero_rounds(&bytes) {
             None => res.machinery_error("reference decoder cannot parse a recorded proof"),
             Some(rp) => {
@@ -179,7 +179,7 @@ fn cross_case(cfg: Cfg, seeded: bool) -> Box<dyn Case> {
         }
         let ctx = contexts()[5];
         let built = build_cached::<P>(&cfg, &wit).unwrap();
-        let rst = ref_statement(&built.statement);
+        let rst = ref_statement_indep(&built.statement);
         // library prover -> reference verifier (+ reference mask recovery)
         let proof = lib_prove(&built, &ctx, &mut HRng::chacha(12)).unwrap();
         let bytes = P::to_bytes(&proof);
